@@ -158,16 +158,31 @@ theorem Built.zipped_owned {v : Variant} {Z : Zip} {C : Codec ρ} {st : Settings
 
 def WF (C : Codec ρ) (s : State ρ) : Prop := s.count = s.buf.length ∧ s.bufLen = (bytesOf C s.buf).length
 
-theorem WF_init (C : Codec ρ) (st : Settings) : WF C (init st : State ρ) := by
+theorem WF_init (C : Codec ρ) (st : Settings) (ans : List Bool := []) : WF C (init st ans : State ρ) := by
   simp [WF, init, bytesOf_nil]
 
 /-! ### sendAndClear -/
+
+/-- the state a flush leaves behind (when the batch is reset) -/
+def flushed (C : Codec ρ) (s : State ρ) : State ρ :=
+  { s with answers := s.answers.tail, buf := [], bufLen := 0, count := 0, firstTime := 0,
+           store := encMany C.enc s.buf.reverse ++ s.store.drop (encMany C.enc s.buf.reverse).length }
+
+/-- the pack a flush hands over -/
+def flushPack (v : Variant) (Z : Zip) (C : Codec ρ) (s : State ρ) : Pack ρ :=
+  mkPack v Z s.settings .shared .sharedBuf s.buf.reverse s.count (encMany C.enc s.buf.reverse)
+
+theorem sendAndClear_eq (v : Variant) (Z : Zip) (C : Codec ρ) (s : State ρ) (hr : v.resetOnError = true)
+    (h : s.bufLen ≠ 0) : sendAndClear v Z C s = (flushed C s, [flushPack v Z C s]) := by
+  unfold sendAndClear flushed flushPack
+  rw [if_neg h]
+  simp [hr]
 
 section sac
 variable (v : Variant) (Z : Zip) (C : Codec ρ) (s : State ρ)
 
 /-- everything one needs to know about a flush -/
-theorem sendAndClear_spec :
+theorem sendAndClear_spec (hr : v.resetOnError = true) :
     let r := sendAndClear v Z C s
     r.1.settings = s.settings ∧ r.1.queue = s.queue ∧ r.1.stopped = s.stopped ∧ r.1.dstores = s.dstores ∧
     r.1.bufLen = 0 ∧
@@ -177,29 +192,27 @@ theorem sendAndClear_spec :
   by_cases h : s.bufLen = 0
   · have e : sendAndClear v Z C s = (s, []) := by unfold sendAndClear; rw [if_pos h]
     rw [e]; simp [h]
-  · have e : sendAndClear v Z C s =
-        ({ s with buf := [], bufLen := 0, count := 0, firstTime := 0,
-                  store := encMany C.enc s.buf.reverse ++ s.store.drop (encMany C.enc s.buf.reverse).length },
-         [mkPack v Z s.settings .shared .sharedBuf s.buf.reverse s.count (encMany C.enc s.buf.reverse)]) := by
-      unfold sendAndClear; rw [if_neg h]
+  · have e := sendAndClear_eq v Z C s hr h
     rw [e]
     refine ⟨rfl, rfl, rfl, rfl, rfl, ?_, ?_, ?_, ?_⟩
-    · simp [sharedRecs_cons]
-    · simp [directRecs_cons]
+    · simp [sharedRecs_cons, flushPack, flushed]
+    · simp [directRecs_cons, flushPack]
     · intro p hp
       simp only [List.mem_singleton] at hp
       exact ⟨_, _, _, _, hp⟩
     · intro hw
-      refine ⟨by simp [WF, bytesOf_nil], ?_⟩
+      refine ⟨by simp [WF, bytesOf_nil, flushed], ?_⟩
       intro p hp
       simp only [List.mem_singleton] at hp
       subst hp
-      simp [hw.1]
+      simp [hw.1, flushPack]
 
 /-- a flush happens exactly when bytes are buffered -/
 theorem sendAndClear_emits : (sendAndClear v Z C s).2 = [] ↔ s.bufLen = 0 := by
   unfold sendAndClear
-  by_cases h : s.bufLen = 0 <;> simp [h]
+  by_cases h : s.bufLen = 0
+  · simp [h]
+  · simp only [h, if_false]; split <;> simp
 
 theorem sendAndClear_noop (h : s.bufLen = 0) : sendAndClear v Z C s = (s, []) := by
   unfold sendAndClear; simp [h]
@@ -233,7 +246,7 @@ theorem appended_WF (hw : WF C s) : WF C (appended C s r) := by
   unfold WF appended at *
   simp [bytesOf_cons, hw.1, hw.2]
 
-theorem appendRec_spec :
+theorem appendRec_spec (hr : v.resetOnError = true) :
     let x := appendRec v Z C s r
     x.1.settings = s.settings ∧ x.1.queue = s.queue ∧ x.1.stopped = s.stopped ∧ x.1.dstores = s.dstores ∧
     sharedRecs x.2 ++ x.1.buf.reverse = s.buf.reverse ++ [r] ∧ directRecs x.2 = [] ∧
@@ -242,7 +255,7 @@ theorem appendRec_spec :
   rw [appendRec_eq]
   by_cases hm : mustFlush C s r
   · simp only [hm, if_true]
-    have h := sendAndClear_spec v Z C (appended C s r)
+    have h := sendAndClear_spec v Z C (appended C s r) hr
     obtain ⟨h1, h2, h3, h4, _, h6, h7, h8, h9⟩ := h
     refine ⟨h1, h2, h3, h4, ?_, h7, h8, fun hw => h9 (appended_WF C s r hw)⟩
     rw [h6]; simp [appended]
@@ -252,7 +265,7 @@ end app
 
 /-! ### drain -/
 
-theorem drain_spec (v : Variant) (Z : Zip) (C : Codec ρ) (q : List ρ) : ∀ (s : State ρ),
+theorem drain_spec (v : Variant) (Z : Zip) (C : Codec ρ) (q : List ρ) (hr : v.resetOnError = true) : ∀ (s : State ρ),
     let x := drain v Z C s q
     x.1.settings = s.settings ∧ x.1.queue = s.queue ∧ x.1.stopped = s.stopped ∧ x.1.dstores = s.dstores ∧
     sharedRecs x.2 ++ x.1.buf.reverse = s.buf.reverse ++ q ∧ directRecs x.2 = [] ∧
@@ -263,7 +276,7 @@ theorem drain_spec (v : Variant) (Z : Zip) (C : Codec ρ) (q : List ρ) : ∀ (s
   | cons r q ih =>
     intro s
     simp only [drain]
-    obtain ⟨a1, a2, a3, a4, a5, a6, a7, a8⟩ := appendRec_spec v Z C s r
+    obtain ⟨a1, a2, a3, a4, a5, a6, a7, a8⟩ := appendRec_spec v Z C s r hr
     obtain ⟨b1, b2, b3, b4, b5, b6, b7, b8⟩ := ih (appendRec v Z C s r).1
     refine ⟨by rw [b1, a1], by rw [b2, a2], by rw [b3, a3], by rw [b4, a4], ?_, ?_, ?_, ?_⟩
     · rw [sharedRecs_append, List.append_assoc, b5, ← List.append_assoc, a5]; simp
@@ -332,7 +345,7 @@ theorem directLoop_inv (rs : List ρ) : ∀ (d : DLoop ρ) (done : List ρ), DIn
     have := ih _ _ (directStep_inv v Z C st k d done r h)
     simpa using this
 
-theorem DInv_init : DInv v Z C st ({ cur := [], len := 0, count := 0, store := [], out := [] } : DLoop ρ) [] :=
+theorem DInv_init (a : List Bool) : DInv v Z C st ({ cur := [], len := 0, count := 0, store := [], out := [], ans := a } : DLoop ρ) [] :=
   ⟨by simp, by simp [bytesOf_nil], rfl, by simp, by simp, by simp⟩
 
 theorem directRecs_of_all_direct (ps : List (Pack ρ)) (h : ∀ p ∈ ps, p.src = .direct) :
@@ -353,11 +366,11 @@ theorem sendDirect_spec (s : State ρ) (rs : List ρ) :
     ((∀ r, C.enc r ≠ []) → directRecs x.2 = rs) ∧
     (∀ p ∈ x.2, Built v Z C s.settings p) ∧
     (∀ p ∈ x.2, p.count = p.recs.length) := by
-  have inv := directLoop_inv v Z C s.settings s.dstores.length rs _ _ (DInv_init v Z C s.settings)
+  have inv := directLoop_inv v Z C s.settings s.dstores.length rs _ _ (DInv_init v Z C s.settings s.answers)
   simp only [List.nil_append] at inv
   unfold sendDirect directLoop
   generalize rs.foldl (directStep v Z C s.settings s.dstores.length)
-    { cur := [], len := 0, count := 0, store := [], out := [] } = d at inv ⊢
+    { cur := [], len := 0, count := 0, store := [], out := [], ans := s.answers } = d at inv ⊢
   unfold directFinish
   by_cases hl : d.len > 0
   · rw [if_pos hl]
